@@ -17,7 +17,34 @@ TRUST = ["C04 statement oracle: locates the first sample of the segment after ea
          "waveform and compares with round(t*SR); checks zero padding, duration and points"]
 
 
+def many_segments_case(rng):
+    """init | waituntil t1 | 260-320 equal pulses | waituntil t2 | readout, then every pulse is lengthened at once
+    (replaceeverywhere) so that the second wait is overrun only because the FIRST wait already moved the clock:
+    t1 + pulses > t2 although init + pulses <= t2.  Long blueprints take different code paths in size-aware rewrites."""
+    # integer-valued times: the model's exact rationals are not normalised, and hundreds of binary64 fractions with
+    # 50-80 bit denominators would make its running sums astronomically long
+    SR = rng.choice([1, 2, 4])
+    n_p = rng.randint(260, 320)
+    init, p0, p1 = rng.randint(20, 100), 10, 14
+    t1 = 1000
+    t2 = t1 + n_p * p0 + rng.randint(50, 400)            # fits before the edit
+    assert t1 + n_p * p1 > t2 and init + n_p * p1 <= t2 + (t1 - init)
+    q = lambda k: float(Fraction(k) / Fraction(SR))      # noqa: E731
+    prog = [("BNew", 0), ("BInsert", 0, -1, "ua", [2.5], q(init), "init"), ("BInsert", 0, -1, "waituntil", [q(t1)], None, None)]
+    prog += [("BInsert", 0, -1, "ua", [10.5 + j], q(p0), "pulse") for j in range(n_p)]          # distinct levels: the oracle finds segments by level
+    prog += [("BInsert", 0, -1, "waituntil", [q(t2)], None, None), ("BInsert", 0, -1, "ua", [3.5], q(30), "readout"),
+             ("BSetSR", 0, SR), ("OBDescr", 0), ("OBForge", 0), ("OBDuration", 0), ("OBPoints", 0),
+             ("BChangeDur", 0, "pulse", q(p1), True), ("OBDescr", 0), ("OBForge", 0), ("OBDuration", 0), ("OBPoints", 0)]
+    return {"prog": prog, "kind": "many-segments", "SR": SR, "nedits": 1}
+
+
 def generate(rng, tier):
+    yield from small_cases(rng, tier)
+    for _ in range(2 if tier == "quick" else 10):          # last: the in-Coq cross-check takes the first programs of a run
+        yield many_segments_case(rng)
+
+
+def small_cases(rng, tier):
     n = 140 if tier == "quick" else 4000
     for _ci in range(n):
         SR = rng.choice([1, 12.5, 100, 1000.0, 1e4, 2.4e9, 50e9, 25])
@@ -93,7 +120,7 @@ def oracle(case, impl):
         if op[0] != "OBForge" or desc is None:
             continue
         dur_r, pts_r = impl[i + 1], impl[i + 2]
-        segs = [desc[k] for k in sorted(k for k in desc if k.startswith("segment_"))]
+        segs = [desc[k] for k in lang.segment_keys(desc)]
         # exact bookkeeping from the description: aligned preceding durations, wait targets
         elapsed = Fraction(0)
         overrun = False
